@@ -657,8 +657,13 @@ func (g *gen) groupProbe() {
 				g.emit("probe", strconv.Itoa(r))
 			}
 		}
-		return
+	} else {
+		g.probeQuickBase()
 	}
+	g.probeAliases()
+}
+
+func (g *gen) probeQuickBase() {
 	for r := 0; r < 0x3200; r++ {
 		g.emit("probe", strconv.Itoa(r))
 	}
@@ -677,6 +682,34 @@ func (g *gen) groupProbe() {
 		}
 		for _, k := range []int{1, 2, 0xE, 0x10} {
 			s := r + k*0x10000
+			g.emit("probe", strconv.Itoa(s))
+			g.emit("probe", strconv.Itoa(r))
+			g.emit("probe", strconv.Itoa(s))
+		}
+	}
+}
+
+func (g *gen) probeAliases() {
+	// out-of-range aliases (seeded change C02g: a class cache whose packed key drops the top bits of
+	// the rune): an ill-formed rune value r + 2^j (or r with the sign bit set) probed back to back
+	// with the valid code point r it would alias, in both orders; such values must behave as Other
+	for _, r := range classEdges() {
+		if r < 0 || r > 0x10FFFF {
+			continue
+		}
+		js := []int{21, 22, 23, 24, 25, 26, 27, 28, 29, 30}
+		if g.tier != "thorough" {
+			js = []int{21 + g.r.Intn(4), 25 + g.r.Intn(3), 28 + g.r.Intn(3)}
+		}
+		var al []int
+		for _, j := range js {
+			al = append(al, r+(1<<uint(j)))
+		}
+		al = append(al, r-(1<<31), r-(1<<uint(js[len(js)-1])))
+		for _, s := range al {
+			if s > math.MaxInt32 || s < math.MinInt32 {
+				continue
+			}
 			g.emit("probe", strconv.Itoa(s))
 			g.emit("probe", strconv.Itoa(r))
 			g.emit("probe", strconv.Itoa(s))
@@ -951,6 +984,40 @@ func (g *gen) groupEdit(n int) {
 				step = fmt.Sprintf("delete,0,%d,End", -2-g.r.Intn(3))
 			}
 			g.emit("prog", g.editStep(t, rosed.Options{})+";"+step)
+			continue
+		}
+		if g.chance(0.25) {
+			// the same three operations on a SUB-editor, twice in a row, then committed (seeded change
+			// C09g: Insert that merges back with CommitAll instead of Commit returns the root)
+			cc := clusterCount(t)
+			st := []string{g.editStep(t, rosed.Options{})}
+			switch g.r.Intn(4) {
+			case 0:
+				st = append(st, fmt.Sprintf("chars,0,%s,%s", encInt(g.pos(cc)), encInt(g.pos(cc))))
+			case 1:
+				st = append(st, fmt.Sprintf("charsfrom,0,%s", encInt(g.pos(cc))))
+			case 2:
+				st = append(st, fmt.Sprintf("charsto,0,%s", encInt(g.pos(cc))))
+			default:
+				st = append(st, fmt.Sprintf("lines,0,%s,%s", encInt(g.pos(2)), encInt(g.pos(2))))
+			}
+			if g.chance(0.3) {
+				st = append(st, fmt.Sprintf("chars,1,%s,%s", encInt(g.pos(cc)), encInt(g.pos(cc))))
+			}
+			for k := 0; k < 2; k++ {
+				cur := len(st) - 1
+				switch g.r.Intn(3) {
+				case 0:
+					st = append(st, fmt.Sprintf("insert,%d,%s,%s", cur, encInt(g.pos(cc)), encText(g.word(mode, 3))))
+				case 1:
+					st = append(st, fmt.Sprintf("delete,%d,%s,%s", cur, encInt(g.pos(cc)), encInt(g.pos(cc))))
+				default:
+					st = append(st, fmt.Sprintf("overtype,%d,%s,%s", cur, encInt(g.pos(cc)), encText(g.word(mode, 3))))
+				}
+			}
+			st = append(st, fmt.Sprintf("string,%d", len(st)-1))
+			st = append(st, fmt.Sprintf("commit,%d", len(st)-2))
+			g.emit("prog", strings.Join(st, ";"))
 			continue
 		}
 		cc := clusterCount(t)
